@@ -64,6 +64,11 @@ def make_layer(item=None, units=4) -> Layer:
 make_layer.__annotations__['return'] = Layer     # a real class object (this module postpones annotations)
 
 
+def posfn(a=1.0, b=2.0, /, c=3, *rest):
+  """Positional-only parameters with defaults (a position can be skipped with cfg[i] = v)."""
+  return targets.Rec('posfn', [('a', a), ('b', b), ('c', c)], tuple(rest), {})
+
+
 def leaf(r, exotic=True):
   x = r.random()
   if not exotic or x < 0.45:
@@ -120,6 +125,17 @@ class Gen:
     r = self.r
     btypes = [fdl.Config, fdl.Config, fdl.Partial] + ([fdl.ArgFactory] if in_partial else [])
     btype = r.choice(btypes)
+    if self.exotic and r.random() < 0.1:
+      # positional-only arguments: given contiguously, or with one position skipped (which no
+      # call expression can express: a generator must reject that configuration)
+      c = btype(posfn, *[self.value(depth - 1, in_partial) for _ in range(r.randint(0, 4))])
+      if r.random() < 0.35:
+        c = btype(posfn)
+        c[1] = leaf(r, False)
+        if r.random() < 0.5:
+          c.c = self.value(depth - 1, in_partial)
+      self.pool.append(c)
+      return c
     fn = r.choice([Model, Layer, relu, Model, Layer, relu, make_layer])
     names = {Model: ['enc', 'dec', 'width', 'name', 'opts'], Layer: ['item', 'units', 'act'], relu: ['x', 'item'],
              make_layer: ['item', 'units']}[fn]
